@@ -145,7 +145,11 @@ pub fn shrink(original: &Plan, class: &str, max_candidates: u32, max_time: Durat
         any |= ddmin(&mut plan, class, &mut b, |p| p.api.clone(), |p, v| p.api = v);
         any |= ddmin(&mut plan, class, &mut b, |p| p.injects.clone(), |p, v| p.injects = v);
         any |= ddmin(&mut plan, class, &mut b, |p| p.perturb.clone(), |p, v| p.perturb = v);
+        // (in a time-sync plan the pauses are what creates the lead the oracle is told about)
         for i in 0..plan.nodes.len() {
+            if plan.oracle.timesync.is_some() {
+                break;
+            }
             any |= ddmin(&mut plan, class, &mut b, |p| p.nodes[i].tick.pauses.clone(), |p, v| p.nodes[i].tick.pauses = v);
         }
         if !any || round == 1 {
@@ -200,7 +204,10 @@ pub fn shrink(original: &Plan, class: &str, max_candidates: u32, max_time: Durat
     try_edit(&mut plan, class, &mut b, &mut steps, "hash-single-seed", |p| p.cfg.hash_per_map = false);
     try_edit(&mut plan, class, &mut b, &mut steps, "no-sparse", |p| p.cfg.sparse = false);
     try_edit(&mut plan, class, &mut b, &mut steps, "no-desync-detection", |p| p.cfg.desync_interval = 0);
-    try_edit(&mut plan, class, &mut b, &mut steps, "delay-0", |p| p.cfg.input_delay = 0);
+    if !timing_sensitive {
+        // (in a lockstep time-sync plan the delay is what makes the lead possible)
+        try_edit(&mut plan, class, &mut b, &mut steps, "delay-0", |p| p.cfg.input_delay = 0);
+    }
     try_edit(&mut plan, class, &mut b, &mut steps, "inputs-unique", |p| p.cfg.input_mode = InputMode::Unique);
     try_edit(&mut plan, class, &mut b, &mut steps, "repeat-last-predictor", |p| p.cfg.predict_default = false);
     try_edit(&mut plan, class, &mut b, &mut steps, "no-clock-bump", |p| p.cfg.clock_bump_us = 0);
